@@ -74,7 +74,8 @@ def gen_case(seed):
         if g.chance(0.2) and len(ins) > len(sampled):
             # a sample input that coincides with a batch input is ignored by funsor
             pass
-        return dict(kind=kind, ins=tins, data=data, sampled=sampled, sample_inputs=sample_inputs, seed=g.rint((0, 10000)))
+        # log-weights of very different scales along a batch (non-sampled) input: every batch row is its own distribution
+        return dict(kind=kind, ins=tins, data=data, sampled=sampled, sample_inputs=sample_inputs, seed=g.rint((0, 10000)), row_offset=g.pick([0.0, 0.0, -900.0, -400.0, 800.0]))
     if kind == "mixture_sample":
         # Tensor + Gaussian mixture: integer and real variables sampled in one call or in two calls
         leaf = gauss_leaf(g, set(g.sizes), rank_mode=g.pick(["full", "over"]), max_dim=3)
@@ -373,6 +374,13 @@ class C14(Prop):
         data = np.asarray(case["data"], dtype=float).reshape(tuple(s for n, s in tins))
         sampled = list(case["sampled"])
         sis = [tuple(x) for x in case["sample_inputs"]]
+        batch_axes = [i for i, (n, s) in enumerate(tins) if n not in sampled]
+        if case.get("row_offset") and batch_axes:
+            ax = batch_axes[0]
+            shape_ = [1] * data.ndim
+            shape_[ax] = data.shape[ax]
+            data = data + case["row_offset"] * np.arange(data.shape[ax]).reshape(shape_)
+            stt.count("tensor_sample:row-offset")
         x = Tensor(data, OrderedDict((n, Bint[s]) for n, s in tins))
         batch = [(n, s) for n, s in tins if n not in sampled]
         ev = [(n, s) for n, s in tins if n in sampled]
@@ -393,7 +401,8 @@ class C14(Prop):
         if set(y.inputs) != want_inputs or y.output != Real:
             raise Violation("sample-type", f"inputs {sorted(y.inputs)} (expected {sorted(want_inputs)}), output {y.output}: {self.describe(case)}")
         total = y.reduce(ops.logaddexp, frozenset(sampled))
-        want_total = np.log(np.sum(np.exp(data - np.max(data)), axis=red_axes)) + np.max(data) if True else None
+        m_ = np.max(data, axis=red_axes, keepdims=True)  # per batch element (a global shift would underflow whole rows)
+        want_total = np.log(np.sum(np.exp(data - m_), axis=red_axes)) + np.squeeze(m_, axis=red_axes)
         sb = sis + batch
         full = sis + tins
         ytab = table_of(y, full)
@@ -420,6 +429,40 @@ class C14(Prop):
         ytab2 = table_of(y2, full)
         if any(not close(ytab[k], ytab2[k]) for k in ytab):
             raise Violation("sample-not-deterministic", f"same seed, different sample: {self.describe(case)}")
+        # the sample used as a measure: integrating a table against it over the sampled inputs and over more (or fewer) of
+        # its inputs equals the sum of exp(sample) * table over those inputs, point by point
+        if not case.get("row_offset"):
+            from funsor import Variable
+            from funsor.integrate import Integrate
+
+            ftab = 0.25 * (1 + (np.arange(data.size) * 3 + case["seed"]) % 8).reshape(data.shape)
+            fterm = Tensor(ftab, OrderedDict((n, Bint[s]) for n, s in tins))
+            choices = [list(sampled)]
+            if batch:
+                choices.append(list(sampled) + [batch[case["seed"] % len(batch)][0]])
+                choices.append(list(sampled) + [n for n, s in batch])
+            if len(sampled) > 1:
+                choices.append(list(sampled)[:1])
+            for vs in choices:
+                try:
+                    r_int = Integrate(y, fterm, frozenset(Variable(n, Bint[dict(tins)[n]]) for n in vs))
+                    kept = [(n, s) for n, s in full if n not in vs]
+                    rtab = table_of(r_int, kept)
+                except Exception as e:
+                    stt.count("sample-as-measure-raised:" + innermost_funsor_frame(e))
+                    continue
+                for kidx in itertools.product(*[range(s) for n, s in kept]):
+                    kpt = dict(zip([n for n, s in kept], kidx))
+                    acc = 0.0
+                    for vidx in itertools.product(*[range(dict(tins)[n]) for n in vs]):
+                        pt = dict(kpt)
+                        pt.update(dict(zip(vs, vidx)))
+                        lw = float(ytab[tuple(pt[n] for n, s in full)])
+                        if lw > NEG:
+                            acc += math.exp(lw) * float(ftab[tuple(pt[n] for n, s in tins)])
+                    if not close(rtab[kidx], acc):
+                        raise Violation("sample-as-measure", f"Integrate(sample, f, {vs}) at {kpt}: {np.asarray(rtab[kidx]).tolist()} but the sum of exp(sample) * f over {vs} is {acc}: {self.describe(case)}")
+                stt.count("sample-as-measure:" + ("superset" if len(vs) > len(sampled) else "subset" if len(vs) < len(sampled) else "same"))
         stt.count("completed")
         if (batch and sis) or np.isneginf(data).any():
             stt.mark_nontrivial(case_hash(case))
